@@ -584,9 +584,9 @@ pub fn case_json(c: &Case) -> String {
 
 fn subs() -> Vec<Box<dyn DynSub>> {
     vec![
-        Box::new(Sub { name: "same", strategy: same_cases, cases: (2500, 40_000), check, max_shrink_iters: 3000 }),
-        Box::new(Sub { name: "far-edit", strategy: far_cases, cases: (1000, 12_000), check, max_shrink_iters: 3000 }),
-        Box::new(Sub { name: "translate", strategy: translate_cases, cases: (2500, 40_000), check, max_shrink_iters: 3000 }),
-        Box::new(Sub { name: "dirty", strategy: dirty_cases, cases: (400, 4_000), check, max_shrink_iters: 3000 }),
+        Box::new(Sub { name: "same", strategy: same_cases, cases: (3500, 40_000), check, max_shrink_iters: 3000 }),
+        Box::new(Sub { name: "far-edit", strategy: far_cases, cases: (1400, 12_000), check, max_shrink_iters: 3000 }),
+        Box::new(Sub { name: "translate", strategy: translate_cases, cases: (3500, 40_000), check, max_shrink_iters: 3000 }),
+        Box::new(Sub { name: "dirty", strategy: dirty_cases, cases: (500, 4_000), check, max_shrink_iters: 3000 }),
     ]
 }
